@@ -1258,3 +1258,36 @@ impl SrtpSession {
         )
     }
 }
+
+/// Verification-only (`--cfg rustrtc_verif`), round 2: the AES-CM SRTCP transform at a chosen
+/// index (its IV is built inline in `cipher_rtcp`), and presetting the state of a session context
+/// (large SRTCP indices / rollover counters cannot be reached by sending 2^31 packets).
+#[cfg(rustrtc_verif)]
+impl SrtpContext {
+    pub fn verif_cipher_rtcp(&self, packet: &mut [u8], index: u32) {
+        self.cipher_rtcp(packet, index)
+    }
+}
+
+#[cfg(rustrtc_verif)]
+impl SrtpSession {
+    /// Set `(rollover_counter, last_sequence, rtcp_index)` of an existing transmit (`tx = true`)
+    /// or receive context; returns whether the context exists.
+    pub fn verif_set_ctx_state(
+        &mut self,
+        tx: bool,
+        ssrc: u32,
+        roc: u32,
+        last_sequence: Option<u16>,
+        rtcp_index: u32,
+    ) -> bool {
+        let map = if tx { &mut self.tx_contexts } else { &mut self.rx_contexts };
+        match map.get_mut(&ssrc) {
+            Some(c) => {
+                c.verif_set_state(roc, last_sequence, rtcp_index);
+                true
+            }
+            None => false,
+        }
+    }
+}
